@@ -8,7 +8,7 @@ RUNNER = ("SAV.sql.GenerativeRun", "run_case")
 STATIC_MODULES = ["SAV.sql.GenerativeRun"]
 RULE = (
     "random chains (length 2-12 quick, up to 40 thorough) of generative calls on real select/insert/update/delete/"
-    "compound statements drawn from a catalogue of ~45 (method, argument) recipes; every object of the chain is "
+    "compound statements drawn from a catalogue of ~60 (method, argument) recipes, including .ext() syntax extensions and SQLite/PostgreSQL ON CONFLICT chains; every object of the chain is "
     "compiled on 5 dialects when it is created and again after the whole chain (also after copy / pickle round "
     "trips, and twice in a row for determinism). The model replays the regenerated effect lists of the same "
     "methods on the heap model and predicts which ancestors are unchanged. non-trivial = chain length >= 3 and at "
@@ -17,11 +17,15 @@ RULE = (
 TRUSTED = [
     "translate/generative.py: syntactic effect classification of every @_generative method (assignment to self.attr = "
     "rebind; self.attr.append/extend/... , self.attr[k] = v = in-place mutation; helper calls inlined one level); "
-    "'+=' on an attribute is resolved at run time from the class default: no __iadd__ on its type => rebind",
+    "'+=' on an attribute is resolved at run time from the class default: no __iadd__ on its type => rebind; an instance "
+    "attribute without class default that is annotated Tuple[...] in the class body counts as a tuple",
     "OPAQUE_OK: helper calls that are not followed (_reset_memoizations: pops memoized entries of the copy's own "
     "__dict__; _assert_no_memoizations: asserts only)",
     "aliasing introduced OUTSIDE generative methods (a caller mutating a list it passed in) is out of scope; "
-    "mutation through local aliases inside a method is not tracked by the classifier (covered only by the chains)",
+    "mutation through a local alias (x = self.attr / getattr(self, ..); x.b = v) is tracked until x is re-assigned, in source "
+    "order; deeper aliasing (an alias of an alias, a value returned by a call) is covered only by the chains",
+    "extension protocol: ext() is followed through every apply_to_<kind>() of the scanned files into "
+    "apply_syntax_extension_point; third-party SyntaxExtension classes are out of scope",
     "compile_pure (compilation writes only memo cells) is not modelled: determinism and purity of compile are "
     "checked by the oracle only",
 ]
@@ -78,7 +82,10 @@ def resolve_aug(items):
         if hasattr(cls, attr):
             vals.append(getattr(cls, attr))
         vals = [v for v in vals if not isinstance(v, (property,)) and not hasattr(v, "__get__") or isinstance(v, type)]
-        if not vals:
+        ann = [str(k.__dict__.get("__annotations__", {}).get(attr, "")) for k in seen | set(cls.__mro__)]
+        if not vals and any(a.lstrip().startswith(("Tuple", "tuple", "typing.Tuple")) for a in ann):
+            out.append("rebind")  # declared (annotated) as a tuple: `+=` binds a new tuple
+        elif not vals:
             out.append("unknown")
         else:
             out.append("mutate" if any(hasattr(type(v), "__iadd__") for v in vals) else "rebind")
@@ -199,11 +206,25 @@ RECIPES = [
     ("delete", "returning", "sqlalchemy.sql.dml:UpdateBase.returning", "col0"),
     ("delete", "with_dialect_options", "sqlalchemy.sql.dml:UpdateBase.with_dialect_options", "dialect_kw"),
     ("delete", "prefix_with", "sqlalchemy.sql.selectable:HasPrefixes.prefix_with", "text"),
+    # syntax extensions (.ext() and the dialect methods built on it): several clauses at one extension point
+    ("select", "ext", "sqlalchemy.sql.base:HasSyntaxExtensions.ext", "pg_distinct_on"),
+    ("update", "ext", "sqlalchemy.sql.base:HasSyntaxExtensions.ext", "mysql_limit"),
+    ("delete", "ext", "sqlalchemy.sql.base:HasSyntaxExtensions.ext", "mysql_limit"),
+    ("sqlite_insert", "on_conflict_do_nothing", "sqlalchemy.sql.base:HasSyntaxExtensions.ext", "oc_nothing"),
+    ("sqlite_insert", "on_conflict_do_update", "sqlalchemy.sql.base:HasSyntaxExtensions.ext", "oc_update"),
+    ("sqlite_insert", "on_conflict_do_nothing", "sqlalchemy.sql.base:HasSyntaxExtensions.ext", "oc_nothing"),
+    ("sqlite_insert", "on_conflict_do_update", "sqlalchemy.sql.base:HasSyntaxExtensions.ext", "oc_update"),
+    ("sqlite_insert", "values", "sqlalchemy.sql.dml:ValuesBase.values", "values"),
+    ("sqlite_insert", "returning", "sqlalchemy.sql.dml:UpdateBase.returning", "col0"),
+    ("pg_insert", "on_conflict_do_nothing", "sqlalchemy.sql.base:HasSyntaxExtensions.ext", "oc_nothing"),
+    ("pg_insert", "on_conflict_do_update", "sqlalchemy.sql.base:HasSyntaxExtensions.ext", "oc_update"),
+    ("pg_insert", "values", "sqlalchemy.sql.dml:ValuesBase.values", "values"),
+    ("pg_insert", "returning", "sqlalchemy.sql.dml:UpdateBase.returning", "col0"),
     ("compound", "order_by", "sqlalchemy.sql.selectable:GenerativeSelect.order_by", "ccol"),
     ("compound", "limit", "sqlalchemy.sql.selectable:GenerativeSelect.limit", "int"),
     ("compound", "offset", "sqlalchemy.sql.selectable:GenerativeSelect.offset", "int"),
 ]
-KINDS = ["select", "select", "select", "insert", "update", "delete", "compound"]
+KINDS = ["select", "select", "select", "insert", "update", "delete", "compound", "sqlite_insert", "sqlite_insert", "pg_insert"]
 NFIELDS = 40
 
 
@@ -277,11 +298,24 @@ def _args(kind, name, seed, stmt_kind):
     r = random.Random(seed)
     t, u = _env["t"], _env["u"]
     cols = [t.c.id, t.c.x, t.c.y, u.c.z, u.c.tid]
-    if name == "crit":
-        c = r.choice(cols)
-        return (c == r.randint(0, 9),), {}
-    if name == "crit0":
-        return (r.choice([t.c.x, t.c.id]) > r.randint(0, 9),), {}
+    if name in ("crit", "crit0"):
+        # a broad operator vocabulary: compilation must not write into the expression objects it visits
+        c = r.choice(cols if name == "crit" else [t.c.x, t.c.id, t.c.y])
+        n = r.randint(0, 9)
+        sv = "v%d" % n
+        forms = [
+            lambda: c == n, lambda: c != n, lambda: c > n, lambda: c.in_([n, n + 1]), lambda: c.not_in([n]),
+            lambda: c.between(n, n + 3), lambda: ~c.between(n, n + 3), lambda: c.is_(None), lambda: c.is_not(None),
+            lambda: t.c.y.like(sv), lambda: t.c.y.not_like(sv), lambda: t.c.y.ilike(sv), lambda: t.c.y.not_ilike(sv),
+            lambda: t.c.y.startswith(sv), lambda: ~t.c.y.startswith(sv), lambda: t.c.y.endswith(sv), lambda: ~t.c.y.endswith(sv),
+            lambda: t.c.y.contains(sv), lambda: ~t.c.y.contains(sv), lambda: t.c.y.istartswith(sv), lambda: ~t.c.y.istartswith(sv),
+            lambda: t.c.y.iendswith(sv), lambda: ~t.c.y.iendswith(sv), lambda: t.c.y.icontains(sv), lambda: ~t.c.y.icontains(sv),
+            lambda: t.c.y.startswith(sv, autoescape=True), lambda: ~t.c.y.endswith(sv, escape="/"),
+            lambda: t.c.y.regexp_match(sv), lambda: ~t.c.y.regexp_match(sv), lambda: t.c.y.concat(sv) == sv,
+            lambda: (c == n) | (t.c.x < n), lambda: ~((c == n) & (t.c.x < n)), lambda: c.is_distinct_from(n),
+            lambda: t.c.x.op("%")(n + 1) == 0, lambda: t.c.x // (n + 1) > 1, lambda: -t.c.x < n,
+        ]
+        return (r.choice(forms)(),), {}
     if name == "col":
         return (r.choice(cols),), {}
     if name == "col0":
@@ -319,6 +353,18 @@ def _args(kind, name, seed, stmt_kind):
         return (), {r.choice(["x", "y"]): r.randint(0, 9)}
     if name == "ordered":
         return (("x", 1), ("y", "q")), {}
+    if name == "pg_distinct_on":
+        from sqlalchemy.dialects.postgresql import distinct_on
+
+        return (distinct_on(r.choice([t.c.x, t.c.y])),), {}
+    if name == "mysql_limit":
+        from sqlalchemy.dialects.mysql import limit
+
+        return (limit(r.randint(1, 9)),), {}
+    if name == "oc_nothing":
+        return (), {"index_elements": [r.choice([t.c.id, t.c.x])]}
+    if name == "oc_update":
+        return (), {"index_elements": [r.choice([t.c.id, t.c.x])], "set_": {r.choice(["x", "y"]): r.randint(0, 9)}}
     if name == "dialect_kw":
         return (), {"mysql_limit": r.randint(1, 9)}
     if name == "dialect_kw_insert":
@@ -349,6 +395,14 @@ def _base(kind):
         return t.update()
     if kind == "delete":
         return t.delete()
+    if kind == "sqlite_insert":
+        from sqlalchemy.dialects.sqlite import insert as sqlite_insert
+
+        return sqlite_insert(t)
+    if kind == "pg_insert":
+        from sqlalchemy.dialects.postgresql import insert as pg_insert
+
+        return pg_insert(t)
     return union(select(t.c.id), select(u.c.id))
 
 
@@ -405,8 +459,10 @@ def impl(c):
             o2 = pickle.loads(pickle.dumps(o))
             after = _fingerprint(o2)
             if before != after:
-                viol = "pickle round trip of a compiled statement changes its compilation: %r" % (
-                    [a for a, b in zip(before, after) if a != b][:1],)
+                names = [d.name for d in _env["dialects"]]
+                diff = [n for n, a, b in zip(names, before, after) if a != b]
+                viol = "pickle round trip of a compiled statement changes its compilation on %s: %r" % (
+                    "+".join(diff), [a for a, b in zip(before, after) if a != b][:1],)
         except Exception as e:
             viol = "pickle round trip of a compiled statement fails: %s: %s" % (type(e).__name__, str(e)[:100])
         c2 = copy.copy(o)
@@ -430,6 +486,6 @@ def oracle(c, obs):
 
 
 def match_finding(c, what):
-    if "pickle round trip" in what:
+    if "pickle round trip of a compiled statement changes its compilation on mssql:" in what:
         return "C03-mssql-compile-pickle-compile"
     return None
